@@ -17,6 +17,11 @@ from ..refsim import DoubleWrite
 ID = 'C01'
 LEVEL = 'exploration'
 
+COMPONENTS = {'real': ['pyrtl.Simulation (_initialize, step, _execute, _mem_update, inspect, inspect_mem)',
+                       'SimulationTrace', 'Block.__iter__ (tie-breaks through the PYRTL_VERIF hook)',
+                       'Block.add_net / sanity_check (design construction)'],
+              'stub': ['RefSim reference model (verifsim/refsim.py)']}
+
 TIERS = {
     'quick': {'runs': 60000, 'classes': 8, 'budget_s': 70},
     'thorough': {'runs': 400000, 'classes': 32, 'budget_s': 1100},
